@@ -21,7 +21,7 @@ RULE = ('(a) the whole option table of TCPHiddenServiceEndpoint (ephemeral not g
         'reactor whose listenTCP hands out a recording listening port: ephemeral (no auth, basic auth), filesystem (explicit and implicit '
         'directory), versions 2/3, with and without a key, with and without a requested local_port (the port actually bound is what must be forwarded to), x a failure injected at each step: configuration Deferred fails, yields a non-config, '
         'configuration bootstrap fails, local bind fails, ADD_ONION / SETCONF rejected, every descriptor upload failed, connection lost during the '
-        'wait — and no failure. Observed in order: listeners bound (interface, port), the forwarding Tor is asked for, listeners closed, the '
+        'wait — and no failure; for plain ephemeral services also with another service\'s descriptor events arriving while the ADD_ONION is unanswered. Observed in order: listeners bound (interface, port), the forwarding Tor is asked for, listeners closed, the '
         'result (address: onion host and public port; stopListening closes the listener), whether it came before the upload was confirmed. Both '
         'tiers enumerate the product. non-trivial = a listen case; distinct = cases')
 TRUSTED = ["PARTIAL: a recording listening port stands in for sockets; the fake Tor's ADD_ONION reply / HS_DESC events; hostname files written by the "
@@ -216,7 +216,16 @@ def run_listen(c):
             st.scripted['ADD_ONION'] = ['512 Bad arguments to ADD_ONION\r\n']
             st.scripted['SETCONF'] = ['513 Unacceptable option value\r\n']
         result = []
+        if c.get('foreign_first'):
+            st.hold_prefixes.add('ADD_ONION')
         ep.listen(Factory.forProtocol(Protocol)).addCallbacks(lambda p: result.append(p), lambda f: result.append(f))
+        if c.get('foreign_first'):
+            # another service's descriptor is uploaded while our ADD_ONION is unanswered: it says nothing about ours
+            for d in ('$%040X' % i for i in (1, 2)):
+                st.event('HS_DESC UPLOAD otherservice0001 UNKNOWN %s descid' % d)
+                st.event('HS_DESC UPLOADED otherservice0001 UNKNOWN %s' % d)
+            st.hold_prefixes.discard('ADD_ONION')
+            st.release('ADD_ONION')
         early = bool(result) and not isinstance(result[0], Failure) and fail in ('none', 'uploads', 'disconnect')
         # the descriptor wait
         sid = (st.service_ids[-1] if st.service_ids else None) if c['kind'].startswith('eph') else HOST_FS[:-6]
@@ -346,6 +355,9 @@ def gen_cases(rng, tier):
         if kind == 'eph-basic' and fail in ('none', 'uploads', 'disconnect'):
             continue        # its descriptor wait needs a real RSA key from Tor to recognise the service (not provided by the fake Tor)
         yield {'api': 'listen', 'kind': kind, 'version': version, 'key': key, 'fail': fail, 'public': public, 'local_port': local_port}
+        if kind == 'eph' and fail in ('none', 'uploads') and local_port is None:
+            yield {'api': 'listen', 'kind': kind, 'version': version, 'key': key, 'fail': fail, 'public': public, 'local_port': local_port,
+                   'foreign_first': True}
 
 
 def classify(r):
